@@ -136,6 +136,34 @@ def templates():
                                                      ("ty", "x", arr(INT), ("block", [I(2)])), ("ty", "x", arr(multi(INT, STR)), ("block", [I(3)])),
                                                      ("other", ("block", [I(4)]))])),
                     ("tuple", [V("r1"), V("r2"), ("pre", "deref", V("log"))])])
+    # if-set / while-set / type arms with struct patterns: width and depth subtyping between the pattern
+    # and the static type of the scrutinee (wider, narrower, union with non-structs, any)
+    def st(*fs):
+        return ("struct", tuple(fs))
+    SA, SAB = st(("a", INT)), st(("a", INT), ("b", INT))
+    SAU, SAS = st(("a", multi(INT, STR))), st(("a", STR))
+    vals = {"ab": ("struct", [("a", I(1)), ("b", I(2))]), "a": ("struct", [("a", I(5))]), "as": ("struct", [("a", ("s", "x"))]),
+            "int": I(7), "bc": ("struct", [("b", I(1)), ("c", I(2))])}
+    statics = {"int|ab": multi(INT, SAB), "a|as": multi(SA, SAS), "any": ANY, "au": SAU, "ab": SAB, "int|a|str": multi(INT, SA, STR)}
+    fits = {"int|ab": ("ab", "int"), "a|as": ("a", "as", "ab"), "any": ("ab", "a", "as", "int", "bc"), "au": ("a", "as", "ab"),
+            "ab": ("ab",), "int|a|str": ("int", "a", "ab")}
+    for sn, stype in statics.items():
+        for vn in fits[sn]:
+            for pn, pat in (("SA", SA), ("SAB", SAB), ("SAU", SAU), ("SAS", SAS), ("S0", st())):
+                ids = ("fndecl", "ids", [("v", stype)], stype, [("return", V("v"))])
+                out.append([LOG, ids, ("set", "v", ("call", V("ids"), [vals[vn]])),
+                            ("set", "r1", ("ifset", "x", pat, V("v"), ("block", [mark(1), I(1)]), ("block", [mark(2), I(2)]))),
+                            ("set", "r2", ("match", V("v"), [("ty", "x", pat, ("block", [mark(3), I(3)])), ("other", ("block", [mark(4), I(4)]))])),
+                            ("tuple", [V("r1"), V("r2"), ("pre", "deref", V("log"))])])
+        # while-set over a struct pattern: runs while the producer hands out a struct
+        nxs = ("fndecl", "nxs", [], multi(SAB, VOID),
+               [("assign", "add", V("cn"), I(1)),
+                ("if", ("bin", "le", ("pre", "deref", V("cn")), I(2)), ("block", [("return", ("struct", [("a", ("pre", "deref", V("cn"))), ("b", I(0))]))]), None),
+                ("return", ("unit",))])
+        for pn, pat in (("SA", SA), ("SAB", SAB), ("SAU", SAU)):
+            out.append([LOG, ("set", "cn", ("mut", INT, I(0))), nxs,
+                        ("whileset", "x", pat, ("call", V("nxs"), []), ("block", [mark(1)])),
+                        ("tuple", [("pre", "deref", V("cn")), ("pre", "deref", V("log"))])])
     # blocks evaluate to their last statement, loops to ()
     out.append([LOG, ("set", "b", ("block", [mark(1), I(1), ("s", "last")])), ("set", "e", ("block", [])),
                 ("set", "l", ("for", "k", ("post", "iter", ("array", [I(1)])), ("block", [I(5)]))),
